@@ -23,6 +23,18 @@ CLAIMED = {
     },
 }
 
+CLAIMED["C10"] = {
+    "text": "Bounded symbolic model checking of the abort step: the real handle_run_request(\":abort\") "
+            "(Command::from_string, run_command's Abort arm, Stack::pop_to_toplevel) is executed from an arbitrary "
+            "stopped machine state (1..3 frames; exprs_to_eval, evalled_values, block_bindings, bindings_next_block of "
+            "the top-level frame of every length within the bound, elements opaque), followed by the real :resume arm "
+            "(eval_to_response -> eval). Decided: one frame remains, only the bottom value and block 0 (the top-level "
+            "variables) survive, nothing is pending, and :resume is a no-op. Bound: vector lengths <= 3 (quick) / 4.",
+    "note": "Trusted: rsx semantics and std models, z3. Elements are identity tokens (the abort path never inspects "
+            "them). Namespace contents and prev_call_args caches are outside the claim.",
+    "design_ref": "DESIGN.md section 6, C10",
+}
+
 NOT_YET = "check not built yet in this revision of /verif (planned, see DESIGN.md section 6)"
 
 NA = {
